@@ -6,6 +6,7 @@ import datetime
 import os
 import itertools
 import xml.etree.ElementTree as ET
+from xml.sax import saxutils
 from typing import Any, Optional, Tuple, Callable, Iterable, Sequence
 import math
 
@@ -128,7 +129,9 @@ def tostring_unclosed_elements(elem: ET.Element) -> bytes:
     Drop-in replacement for xml.etree.ElementTree.tostring().
     """
     if len(elem) == 0:
-        text = "<{}>{}{}".format(elem.tag, elem.text or "", elem.tail or "")
+        # Element data must not contain raw markup characters (OFX section 2.3.2.1)
+        data = saxutils.escape(elem.text or "")
+        text = "<{}>{}{}".format(elem.tag, data, elem.tail or "")
         output = bytes(text, "utf_8")
     else:
         output = bytes("<{}>{}".format(elem.tag, elem.tail or ""), "utf_8")
